@@ -19,6 +19,7 @@ pub struct World {
     pub swarm: J,
     pub log: u64,
     pub steps: u64,
+    pub tlogs: Vec<u64>,
 }
 
 pub struct S2;
@@ -113,7 +114,7 @@ impl Scenario for S2 {
             .set("w_fork4", J::U(if c15 { sw.range(0, 1) } else { sw.range(1, 5) } as u128))
             .set("w_setp", J::U(if c15 { sw.range(2, 5) } else { sw.range(1, 3) } as u128))
             .set("w_getp", J::U(if c15 { sw.range(1, 3) } else { sw.range(0, 1) } as u128))
-            .set("w_derive", J::U(if c15 { sw.range(2, 5) } else { sw.range(0, 1) } as u128))
+            .set("w_derive", J::U(if mix == "C18" { sw.range(0, 0) } else if c15 { sw.range(2, 5) } else { sw.range(0, 1) } as u128))
             .set("w_direct", J::U(if c15 { sw.range(1, 4) } else { sw.range(0, 1) } as u128))
             .set("nops", J::U(sw.range(4, 32) as u128));
         J::obj().set("host", J::U(hosts::pick_level(sw) as u128)).set("tasks", J::A(tasks)).set("swarm", swarm)
@@ -136,7 +137,7 @@ impl Scenario for S2 {
             let d = if nonce.len() == 12 { [0, w(&nonce[0..4]), w(&nonce[4..8]), w(&nonce[8..12])] } else { [0, 0, w(&nonce[0..4]), w(&nonce[4..8])] };
             tasks.push(Task { real, key: spec::key_words(&key), d });
         }
-        World { host, tasks, swarm: setup.get("swarm").cloned().unwrap_or(J::obj()), log: 0, steps: 0 }
+        World { host, tasks, swarm: setup.get("swarm").cloned().unwrap_or(J::obj()), log: 0, steps: 0, tlogs: vec![] }
     }
     fn gen_op(&self, w: &World, _mix: &str, st: &mut Streams) -> Option<Op> {
         if w.tasks.is_empty() || w.steps >= w.swarm.u_or("nops", 24) as u64 {
@@ -185,11 +186,18 @@ impl Scenario for S2 {
         w.steps += 1;
         let mut rh = 0u64;
         let r = step_inner(w, ti, op, stats, &mut rh);
+        if ti >= w.tlogs.len() {
+            w.tlogs.resize(ti + 1, 0);
+        }
+        w.tlogs[ti] = (w.tlogs[ti].rotate_left(7) ^ op.hash_nt()).wrapping_mul(0x9e37_79b9_7f4a_7c15) ^ rh;
         w.log = (w.log.rotate_left(7) ^ op.hash()).wrapping_mul(0x9e37_79b9_7f4a_7c15) ^ rh;
         r
     }
     fn log_digest(&self, w: &World) -> u64 {
         w.log
+    }
+    fn task_logs(&self, w: &World) -> Vec<u64> {
+        w.tlogs.clone()
     }
     fn shrink_setup(&self, setup: &J, ops: &[Op]) -> Vec<(J, Vec<Op>)> {
         let mut out = Vec::new();
